@@ -520,7 +520,8 @@ func (c *client) receive(r io.Reader) (err error) {
 	defer func() { returnResult(rpc, response, err) }()
 
 	if header.Exception != nil {
-		err = exceptionToError(*header.Exception.ExceptionClassName, *header.Exception.StackTrace)
+		err = exceptionToError(header.Exception.GetExceptionClassName(),
+			header.Exception.GetStackTrace())
 		return
 	}
 
@@ -538,9 +539,22 @@ func (c *client) receive(r io.Reader) (err error) {
 		return
 	}
 
+	if v, ok := rpc.(interface{ validateResponse(proto.Message) error }); ok {
+		if err = v.validateResponse(response); err != nil {
+			err = RetryableError{fmt.Errorf("failed to decode the response: %s", err)}
+			return
+		}
+	}
+
 	var cellsLen uint32
 	if header.CellBlockMeta != nil {
 		cellsLen = header.CellBlockMeta.GetLength()
+	}
+	if cellsLen > uint32(len(b[headerLen+responseLen:])) {
+		err = RetryableError{fmt.Errorf("failed to decode the response: "+
+			"cellblocks of %d bytes don't fit in %d bytes after the response",
+			cellsLen, len(b[headerLen+responseLen:]))}
+		return
 	}
 	if d, ok := rpc.(canDeserializeCellBlocks); cellsLen > 0 && ok {
 		b := b[size-cellsLen:]
